@@ -93,6 +93,7 @@ Definition run_expand (c : json) : json :=
                                    && check_pis enodes && check_root root nodes2 enodes bad0 rm in
                     JObj [("domain", JBool true); ("nodes", JNum (Z.of_nat (List.length nodes)) 0);
                           ("enodes", JNum (Z.of_nat (List.length enodes)) 0); ("spec_hyps", JBool spec_ok);
+                          ("spec_resolvable", JBool (spec_ok && check_resolvable gen_env docs' "/" o root "" nodes2 && check_eresolvable gen_env docs' "/" enodes));
                           ("refs", JNum (Z.of_nat (List.length (refs_of nodes))) 0);
                           ("check_nodes", JBool (check_nodes gen_env docs' "/" o root "" nodes));
                           ("resolvable", JBool (check_resolvable gen_env docs' "/" o root "" nodes));
